@@ -57,6 +57,10 @@ def judge(c, rec, Mismatch):
         raise Mismatch('gridding a path inside the grid raised', {'error': c.error, **c.desc})
     if not c.len_ok:
         raise Mismatch('output arrays have different lengths', {'lengths': c.lengths, **c.desc})
+    if c.input_mutated or c.regrid_differs:
+        raise Mismatch('gridding a trajectory changes the caller\'s arrays, so gridding it again '
+                       'gives different totals', {'arrays_changed': c.input_mutated,
+                                                  'regrid_differs': c.regrid_differs, **c.desc})
     n_seg = len(c.lats) - 1
     total_in = [float(np.sum(v)) for v in c.integ]
     total_out = [0.0] * c.n_integ
